@@ -75,8 +75,55 @@ package limit
 //@   ensures [failure-falls-back] calls(EvalCtx) == 1 && rerr != nil && rerr != redis.Nil && !ret(errors.Is, 0, 1) && !ret(errors.Is, 0, 2) ==> calls(tl.startMonitor) == 1 && calls(tl.rescueLimiter.AllowN, now, n) == 1 && result == ret(AllowN)
 
 // startMonitor: at most one monitor; the switch to the rescue bucket and the start happen under the lock.
+// (monitorStarted is shared with the monitor goroutine under rescueLock: it is read after the lock is taken)
 //@ func (*TokenLimiter).startMonitor
 //@   prop C08
+//@   guards tl.rescueLock: tl.monitorStarted
 //@   requires tl != nil
-//@   ensures [one-monitor] old(tl.monitorStarted) ==> calls("go (*TokenLimiter).waitForRedis") == 0 && tl.redisAlive == old(tl.redisAlive)
-//@   ensures [starts] !old(tl.monitorStarted) ==> calls("go (*TokenLimiter).waitForRedis") == 1 && tl.monitorStarted && tl.redisAlive == 0
+//@   let locked = on("lock", tl.rescueLock)
+//@   ensures [one-monitor] at(locked, tl.monitorStarted) ==> calls("go (*TokenLimiter).waitForRedis") == 0 && tl.redisAlive == old(tl.redisAlive)
+//@   ensures [starts] !at(locked, tl.monitorStarted) ==> calls("go (*TokenLimiter).waitForRedis") == 1 && tl.monitorStarted && tl.redisAlive == 0 && before(locked, "go (*TokenLimiter).waitForRedis")
+
+// The monitor: pings on every tick; the first successful ping switches back to Redis and ends the monitor; when it
+// ends (however) the ticker is stopped and - under the lock - the limiter is told that no monitor is running, so
+// that a later outage starts a new one.
+//@ func (*TokenLimiter).waitForRedis
+//@   prop C08
+//@   opaque Ping, NewTicker, Stop
+//@   requires tl != nil
+//@   loop 1 iteration-ensures [failed-ping-keeps-rescue-bucket] calls(tl.store.Ping) == 1 && !ret(Ping) && tl.redisAlive == at_head(tl.redisAlive)
+//@   ensures [monitor-retired-under-lock] !tl.monitorStarted && calls(Stop) == 1 && calls(on("lock", tl.rescueLock)) == 1 && calls(on("unlock", tl.rescueLock)) == 1
+//@   ensures [back-to-redis-only-after-a-good-ping] calls(Ping) == 1 && ret(Ping) ==> tl.redisAlive == 1
+// Construction: keys derived from the caller's key, Redis in charge at first, and a rescue bucket of the SAME
+// rate (one token every 1/rate second) and burst.
+//@ func NewTokenLimiter
+//@   prop C08
+//@   opaque Sprintf
+//@   requires rate > 0
+//@   ensures [fields] result != nil && result.rate == rate && result.burst == burst && result.store == store && result.redisAlive == 1 && !result.monitorStarted && result.tokenKey == ret(Sprintf, 0, 1) && result.timestampKey == ret(Sprintf, 0, 2)
+//@   ensures [rescue-bucket-same-rate-and-burst] calls(xrate.NewLimiter) == 1 && arg(xrate.NewLimiter, 1) == burst && arg(xrate.NewLimiter, 0) == ret(xrate.Every) && arg(xrate.Every, 0) == 1000000000 / rate && result.rescueLimiter == ret(xrate.NewLimiter)
+// The public forms all go through reserveN with the caller's time and count.
+//@ func (*TokenLimiter).AllowN
+//@   prop C08
+//@   opaque reserveN
+//@   ensures calls(tl.reserveN) == 1 && arg(tl.reserveN, 2) == now && arg(tl.reserveN, 3) == n && result == ret(reserveN)
+//@ func (*TokenLimiter).AllowNCtx
+//@   prop C08
+//@   opaque reserveN
+//@   ensures calls(tl.reserveN, ctx, now, n) == 1 && result == ret(reserveN)
+//@ func (*TokenLimiter).Allow
+//@   prop C08
+//@   opaque AllowN
+//@   ensures [one-token-now] calls(tl.AllowN) == 1 && arg(tl.AllowN, 1) == ret(time.Now) && arg(tl.AllowN, 2) == 1 && result == ret(AllowN)
+//@ func (*PeriodLimit).Take
+//@   prop C08
+//@   opaque TakeCtx
+//@   ensures calls(pl.TakeCtx) == 1 && arg(pl.TakeCtx, 2) == key && result0 == ret(TakeCtx, 0) && result1 == ret(TakeCtx, 1)
+//@ func NewPeriodLimit
+//@   prop C08
+//@   loop 1 invariant -1 <= rangeindex
+//@   ensures [no-options-plain-fields] len(opts) == 0 ==> result != nil && result.period == period && result.quota == quota && result.limitStore == limitStore && result.keyPrefix == keyPrefix && !result.align
+//@ func Align$1
+//@   prop C08
+//@   requires pl != nil
+//@   ensures pl.align
